@@ -224,6 +224,9 @@ def run(tree, rep, tier):
     r3(tree, prog, rep)
     r5(tree, rep)
     r5_rows(prog, rep)
+    # the server replays the whole mailbox after every re-open: only the dedup set stands between a reconnect and a repetition
+    from .C02 import dedup_set_discipline
+    dedup_set_discipline(tree, rep, "C09.R6")
     r4(tree, rep, tier)
 
 
